@@ -23,11 +23,11 @@ def run(ctx):
         ctx.guard("C20", "log", lambda: blocksize.log_conversions(ctx, prog))
         ctx.guard("C20", "cap", lambda: blocksize.score_cap(ctx, prog))
         ctx.guard("C20", "raw", lambda: blocksize.raw_score(ctx, prog))
+        if c == "unchecked":
+            # the `_unchecked` forms of the same helpers are part of the documented surface: each is its `_internal` function
+            ctx.guard("C20", "twins", lambda: features.twins(ctx, prog, scope=r"block_size::|score_cap_on_block_hash_comparison|raw_score_by_edit_distance|is_near|compare_sizes|is_far", floor=4))
         ctx.guard("C20", "summaries", lambda: summary.check(ctx, prog, 'block_size::|BlockSizeRelation|is_block_sizes_|compare_block_sizes|score_cap_on|raw_score_by', floor=10))
         ctx.guard("C20", "path summaries", lambda: summary.check_paths(ctx, prog, 'block_size::|BlockSizeRelation|is_block_sizes_|compare_block_sizes|score_cap_on|raw_score_by', floor=6))
         if c in ("dbg", "unsafe_dbg", "strict_dbg"):
             ctx.guard("C20", "beliefs", lambda: beliefs.census(ctx, prog, beliefs.SCOPES["C20"][0], floor=beliefs.SCOPES["C20"][1]))
-        if c == "unchecked":
-            # the `_unchecked` forms of the same helpers are part of the documented surface: each is its `_internal` function
-            ctx.guard("C20", "twins", lambda: features.twins(ctx, prog, scope=r"block_size::|score_cap_on_block_hash_comparison|raw_score_by_edit_distance|is_near|compare_sizes|is_far", floor=4))
     return ctx.finish(EXPL, ["u32::is_power_of_two, wrapping_mul, Ord::min have their documented meaning", "rustc's const evaluation of the tables"])
